@@ -68,13 +68,120 @@ def _worker_observe(case):
         signal.setitimer(signal.ITIMER_REAL, 0)
 
 
+def _pool_worker(prop_id: str, conn):
+    """One observation process: receives chunks [(index, case)...], answers [(index, observation)...]."""
+    _worker_init(prop_id)
+    while True:
+        try:
+            chunk = conn.recv()
+        except EOFError:
+            return
+        if chunk is None:
+            return
+        conn.send([(i, _worker_observe(c)) for i, c in chunk])
+
+
+class _Slot:
+    def __init__(self, ctx, prop_id):
+        self.conn, child = ctx.Pipe()
+        self.proc = ctx.Process(target=_pool_worker, args=(prop_id, child), daemon=True)
+        self.proc.start()
+        child.close()
+        self.chunk = None
+        self.deadline = 0.0
+        self.done = 0
+
+    def kill(self):
+        try:
+            self.proc.kill()
+            self.proc.join(5)
+        except Exception:
+            pass
+        try:
+            self.conn.close()
+        except Exception:
+            pass
+
+
 def observe_all(spec, cases):
+    """Observations of all cases, in order, from a pool of forked processes.  Unlike multiprocessing.Pool this
+    survives a worker that dies (segfault, os._exit, out of memory) or never comes back (a loop inside C code that
+    no Python-level alarm can interrupt): the chunk is re-run case by case and the culprit alone is recorded as
+    {"timeout": True, ...}, so a change that crashes or hangs the interpreter is reported, not waited for."""
     if getattr(spec, "OBSERVE_IN_PARENT", False):
         return [spec.observe(c) for c in cases]
+    from multiprocessing.connection import wait as mp_wait
     ctx = mp.get_context("fork")
-    with ctx.Pool(processes=min(C.NCPU, max(1, len(cases) // 8 + 1)), initializer=_worker_init,
-                  initargs=(spec.ID,), maxtasksperchild=getattr(spec, "MAX_TASKS_PER_CHILD", None)) as pool:
-        return pool.map(_worker_observe, cases, chunksize=max(1, len(cases) // (C.NCPU * 8) + 1))
+    limit = getattr(spec, "CASE_TIMEOUT", 20)
+    per_child = getattr(spec, "MAX_TASKS_PER_CHILD", None)
+    n = len(cases)
+    size = max(1, n // (C.NCPU * 8) + 1)
+    queue = [[(i, cases[i]) for i in range(k, min(n, k + size))] for k in range(0, n, size)]
+    queue.reverse()
+    results = [None] * n
+    nproc = min(C.NCPU, max(1, n // 8 + 1))
+    slots: list[_Slot] = []
+    try:
+        while queue or any(s.chunk is not None for s in slots):
+            # hand out work
+            slots = [s for s in slots if s.proc.is_alive() or s.chunk is not None]
+            while len(slots) < min(nproc, len(queue) + len([s for s in slots if s.chunk is not None])):
+                slots.append(_Slot(ctx, spec.ID))
+            for s in slots:
+                if s.chunk is None and queue and s.proc.is_alive():
+                    if per_child is not None and s.done >= per_child:
+                        try:
+                            s.conn.send(None)
+                        except Exception:
+                            pass
+                        s.kill()
+                        continue
+                    s.chunk = queue.pop()
+                    s.deadline = time.time() + (limit + 2) * len(s.chunk) + 10
+                    try:
+                        s.conn.send(s.chunk)
+                    except Exception:
+                        pass                      # found dead below
+            busy = [s for s in slots if s.chunk is not None]
+            if not busy:
+                continue
+            ready = mp_wait([s.conn for s in busy] + [s.proc.sentinel for s in busy], timeout=1.0)
+            now = time.time()
+            for s in busy:
+                got = None
+                if s.conn in ready:
+                    try:
+                        got = s.conn.recv()
+                    except (EOFError, OSError):
+                        got = None
+                if got is not None:
+                    for i, ob in got:
+                        results[i] = ob
+                    s.chunk = None
+                    s.done += 1
+                    continue
+                dead = not s.proc.is_alive()
+                if dead or now > s.deadline:
+                    chunk, code = s.chunk, (s.proc.exitcode if dead else None)
+                    s.chunk = None
+                    s.kill()
+                    if len(chunk) == 1:
+                        i = chunk[0][0]
+                        results[i] = {"timeout": True,
+                                      "crash": (f"observation process died (exit code {code})" if dead
+                                                else "observation process did not answer in time and was killed")}
+                    else:
+                        for item in reversed(chunk):      # isolate the culprit: one case per process round
+                            queue.append([item])
+    finally:
+        for s in slots:
+            if s.proc.is_alive():
+                try:
+                    s.conn.send(None)
+                except Exception:
+                    pass
+            s.kill()
+    return results
 
 
 def load_known():
@@ -272,6 +379,11 @@ def run_check(prop_id: str, tier: str, seed: int, replay: dict | None = None) ->
 
         exit_code = 0
         replay_path = None
+        if os.environ.get("A816_LIST_FAILS"):        # debugging aid: which cases fail, by kind
+            for tag, idx in (("F", F_new), ("D", D_new)):
+                for i in idx[:int(os.environ["A816_LIST_FAILS"])]:
+                    print(f"  {tag} #{i} {cases[i].get('kind') if isinstance(cases[i], dict) else ''} -> "
+                          f"{json.dumps(obs[i], default=str)[:300]}")
         if F_new:
             i = F_new[0]
             if hasattr(spec, "shrink"):
